@@ -75,7 +75,8 @@ def expect(res, key, v, specs, what, exact=('return', 'raise', 'yield', 'yield-f
         guards = sp[2] if len(sp) > 2 else ()
         ctx = sp[3] if len(sp) > 3 else ()
         hits = v.find(kind, text, guards, ctx)
-        if len(sp) > 4 and sp[4] == 'exact':
+        if not (len(sp) > 4 and sp[4] == 'sub'):
+            # the effect happens under exactly the stated conditions: an additional guard restricts it
             hits = [h for h in hits if h[2] == frozenset(guards)]
         if not hits:
             near = [r for r in v.rows if r[0] == kind]
